@@ -150,10 +150,17 @@ func (p *UnsafePool) ExtractAllMarkedFinalize() []Value {
 				r: r,
 			})
 			r.setFlag(wrFinalized)
-			// We don't want the finalizer to be triggered anymore, but more
-			// important the finalizer is holding a reference to the pool
-			// (although that may not affect its reachability?)
-			setFinalizer(iface, nil)
+			// A value that still has to be released stays in the pool, and the
+			// pool only has its address: its go finalizer must stay too, so
+			// that the pool hears of it (and takes a real reference, see
+			// goFinalizer) if it is collected before ExtractAllMarkedRelease
+			// is called.
+			if r.hasFlag(wrReleased) {
+				// We don't want the finalizer to be triggered anymore, but
+				// more important the finalizer is holding a reference to the
+				// pool (although that may not affect its reachability?)
+				setFinalizer(iface, nil)
+			}
 		}
 	}
 	p.mx.Unlock()
